@@ -80,6 +80,25 @@ def gen_cases(tier, seed):
             mid = 0.5 * (np.array(shells[0]["c"]) + np.array(shells[1]["c"]))
             pts = [[float(v) for v in mid], [float(v) for v in mid + rng.normal(size=3)]]
             cases.append({"shells": shells, "points": pts, "charges": [1.0, -2.5], "classes": classes + ["q:between", "l:%d,%d" % (la, lb), "nsh:2", "nq:2", "window-sweep"], "cost": 60})
+    # Boys-window sweep: high total angular momentum with the charge at a distance where the Boys argument
+    # p |P-C|^2 of the dominant primitive pair runs through 12 .. 48 (where asymptotic/series switches of a Boys
+    # implementation live; the relative weight of the neglected tail grows with the order)
+    for (la, lb) in ((5, 5), (4, 5), (5, 3), (3, 4)) if tier == "quick" else itertools.product((2, 3, 4, 5), repeat=2):
+        for T in range(12, 50, 4 if tier == "quick" else 2):
+            rng = bases.rng_for("C03", seed, tier, "boys", la, lb, T)
+            a, b = float(rng.uniform(0.5, 4.0)), float(rng.uniform(0.5, 4.0))
+            A = rng.normal(size=3)
+            B = A + rng.normal(size=3) * 0.4
+            shells = [{"l": la, "c": [float(v) for v in A], "e": [a], "k": [[1.0]], "t": str(rng.choice(["c", "p"]))},
+                      {"l": lb, "c": [float(v) for v in B], "e": [b], "k": [[1.0]], "t": str(rng.choice(["c", "p"]))}]
+            P = (a * A + b * B) / (a + b)
+            pts = []
+            for tt in (T, T + 1.3, T + 2.6):
+                u = rng.normal(size=3)
+                u /= np.linalg.norm(u)
+                pts.append([float(v) for v in P + u * np.sqrt(tt / (a + b))])
+            cases.append({"shells": shells, "points": pts, "charges": [1.0, -1.5, 2.0],
+                          "classes": ["boys-window", "boysT:%d" % T, "l:%d,%d" % (la, lb), "nsh:2", "nq:3", "q:generic"], "cost": 80})
     return cases
 
 
